@@ -868,10 +868,28 @@ func genC11(t *rapid.T) c11Case {
 			recs[ri].Lines = out
 		}
 	}
+	if len(recs) > 0 && rapid.IntRange(0, 9).Draw(t, "bomname") == 0 {
+		// the file begins with the character U+FEFF: it belongs to the first heading, which therefore is not the recipe
+		// the other lines mean when they write the name without it
+		recs[0].Head = "\ufeff" + recs[0].Head
+	}
 	c.Book = vDoc{Recs: recs}
 	if rapid.IntRange(0, 2).Draw(t, "decorated") == 0 {
 		// blank lines, column-0 comments of any content and notes between the lines: they are no part of any recipe
-		vDecorate(t, &c.Book, vLayoutOpts{EOL: []string{"", "\r\n", "mixed"}[rapid.IntRange(0, 2).Draw(t, "decoeol")]}, true, "deco")
+		lo := vLayoutOpts{EOL: []string{"", "\r\n", "mixed"}[rapid.IntRange(0, 2).Draw(t, "decoeol")]}
+		if rapid.Bool().Draw(t, "relayout") {
+			// every way an ingredient line may be written (tabs, list dashes, quotes, a dash or blanks before the colon):
+			// the reference is the same reference
+			for ri := range c.Book.Recs {
+				c.Book.Recs[ri].HL = vGenHeadLayout(t, lo, "rehl")
+				for li := range c.Book.Recs[ri].Lines {
+					if c.Book.Recs[ri].Lines[li].Kind == vkEntry {
+						c.Book.Recs[ri].Lines[li].L = vGenEntryLayout(t, lo, "reel")
+					}
+				}
+			}
+		}
+		vDecorate(t, &c.Book, lo, true, "deco")
 	}
 	return c
 }
